@@ -314,6 +314,7 @@ def covers_all(src, list_param):
 
 
 SCALAR_IMPORTERS = ("helpers::scalar_from_be_bytes", "helpers::scalar_from_le_bytes")
+REDUCING_DECODERS = ("scalar_from_bytes_wide", "from_bytes_wide", "from_okm", "from_uniform_bytes", "reduce", "from_be_bytes_mod_order", "from_le_bytes_mod_order")
 
 
 def check_scalar_zero_guard(ctx, rule, P):
@@ -334,5 +335,10 @@ def check_scalar_zero_guard(ctx, rule, P):
                 dep = arg is not None and any(t.op == "param" and t.a[1] == "input" for t in subterms(arg))
                 ret_is_call = any(t.op == "call" and B.cname(t) == s.callee[0] for t in subterms(strip_sites(ev.ret))) if ev.ret is not None else False
                 ctx.ob(rule, "%s/delegates" % fk, dep and ret_is_call, "%s has no from_repr of its own: it returns %s(<image of input>) (the sibling importer carries the zero test)" % (fk, s.callee[0]), where=where(fn, b))
+        red = [(b, s) for b, s in sorted(ev.sites.items()) if s.callee[0].split("::")[-1] in REDUCING_DECODERS]
+        for b, s in red:
+            ctx.ob(rule + ".canonical", "%s/%s" % (fk, s.callee[0].split("::")[-1]), False, "%s decodes through the reducing `%s`: distinct byte strings (x, x+r, ..) import as the same scalar and r itself imports as zero - the byte importers must use the canonical, range-checking PrimeField::from_repr" % (fk, s.callee[0]), where=where(fn, b))
+        if own or deleg or red:
+            pass
         else:
             ctx.ob(rule + ".anchor", "%s/is_zero(input)" % fk, False, "neither a from_repr call nor a delegation to the sibling importer found in `%s` (anchor changed shape)" % fk, where=where(fn))
